@@ -13,7 +13,7 @@ ASSUMPTIONS = ["values are non-negative ints with totals < 2^53", "rnp with numb
                "an exception on an in-quantifier input counts as a violation (DESIGN §3)"]
 FLOORS = {"quick": {"distinct_nontrivial": 2000}, "thorough": {"distinct_nontrivial": 20000}}
 
-CLASSES = ("small", "zeros", "equal", "ties", "kgtn", "big", "grid", "perfect", "powers", "onehuge")
+CLASSES = ("small", "zeros", "equal", "ties", "kgtn", "big", "huge", "grid", "perfect", "powers", "onehuge")
 
 
 def plan(tier, seed):
@@ -58,6 +58,12 @@ def run_shard(spec, rng, ctx):
         case = C.draw_partition_case(rng, alg=alg, classes=CLASSES)
         judge(case, ctx)
         i += 1
+        if i % 200 == 0:
+            # the known-finding region (rnp, numbins >= 6) at small volume: whatever rnp RETURNS there must still be a partition, and a failure
+            # must match the finding's classifier; anything else is reported
+            k = rng.choice([6, 7, 8])
+            judge({"kind": "partition", "alg": "rnp", "k": k, "values": [rng.randint(1, 30) for _ in range(rng.randint(2, 7))], "cls": "rnp_k6_region",
+                   "pres": rng.choice(["list", "dict_str"]), "pres_seed": rng.randrange(1 << 30)}, ctx)
     if i < spec["max_cases"]:
         ctx.counters["stopped_by_budget"] += 1
 
